@@ -24,7 +24,16 @@ CheckTol(e) ==
                    (e.p[i][1]-e.q[i][1])*(e.p[i][1]-e.q[i][1]) + (e.p[i][2]-e.q[i][2])*(e.p[i][2]-e.q[i][2]) <= e.t2 IN
   IF e.eq # within THEN "tolerance" ELSE IF e.eqrev # e.eq THEN "tolerance-asymmetric" ELSE IF ~e.eqaa THEN "tolerance-not-reflexive" ELSE "ok"
 
-Check(e) == IF e.panic # "" THEN "panic" ELSE IF e.kind = "pair" THEN CheckPair(e) ELSE CheckTol(e)
+\* IgnoreOrder together with ToleranceXY(t) on two MultiPoints: related iff some bijection pairs points within t
+Near(p,q,t2) == (p[1]-q[1])*(p[1]-q[1]) + (p[2]-q[2])*(p[2]-q[2]) <= t2
+CheckTolIO(e) ==
+  LET want == Len(e.p) = Len(e.q) /\ Bij(Len(e.p), LAMBDA i, j : Near(e.p[i], e.q[j], e.t2)) IN
+  IF ~e.eqaa \/ ~e.eqbb THEN "tolerance-ignore-order-not-reflexive"
+  ELSE IF e.eq # want THEN (IF want THEN "tolerance-ignore-order-misses-matching" ELSE "tolerance-ignore-order-accepts-different")
+  ELSE IF e.eqrev # e.eq THEN "tolerance-ignore-order-asymmetric"
+  ELSE "ok"
+
+Check(e) == IF e.panic # "" THEN "panic" ELSE IF e.kind = "pair" THEN CheckPair(e) ELSE IF e.kind = "tolio" THEN CheckTolIO(e) ELSE CheckTol(e)
 
 Init == sh \in 1..S /\ l = sh
 Next == /\ l <= Len(Trace) /\ l' = l + S /\ sh' = sh
